@@ -32,6 +32,22 @@ class Injected(Exception):
         self.slot, self.k = slot, k
 
 
+_SPECIAL: dict = {}
+
+
+def injected_of(kind: str, slot: str, k: int) -> BaseException:
+    """An injected exception of a builtin class that library code might treat specially (StopIteration, KeyError, ...):
+    user callbacks can raise anything; whatever it is must reach the subscriber as on_error."""
+    import builtins
+
+    if kind not in _SPECIAL:
+        base = getattr(builtins, kind)
+        _SPECIAL[kind] = type(f"Injected{kind}", (base,), {})
+    ex = _SPECIAL[kind](f"injected@{slot}#{k}")
+    ex.slot, ex.k = slot, k
+    return ex
+
+
 class SrcError(Exception):
     """Error notification carried by a harness source timeline."""
 
@@ -370,7 +386,7 @@ class Env:
             env.probe_counts[slot] = k
             env.probe_log.append((env.sched.tick(), env.sched._clock, slot, k))
             if env.arm is not None and env.arm[0] == slot and env.arm[1] == k:
-                ex = Injected(slot, k)
+                ex = Injected(slot, k) if len(env.arm) < 3 or not env.arm[2] else injected_of(env.arm[2], slot, k)
                 env.injected.append(ex)
                 raise ex
             return fn(*a, **kw)
